@@ -61,3 +61,20 @@ Proof.
     tr_normalized_string_try_from_str, tr_normalized_string_try_from_string.
   destruct (tr_normalized_string_new s); repeat split; reflexivity.
 Qed.
+
+(* ---- the outer NormalizedString::new (its nested `inner` is the function translated above) and
+   AsRef<str>::as_ref: `from_utf8(&self.s[..self.length as usize]).unwrap()` with the ASCII criterion ---- *)
+Lemma normalized_string_new_outer_translated : forall s, tr_normalized_string_new_outer s = tr_normalized_string_new s.
+Proof. intros s. unfold tr_normalized_string_new_outer. destruct (tr_normalized_string_new s); reflexivity. Qed.
+
+Lemma normalized_string_as_ref_translated : forall t,
+  tr_normalized_string_as_ref (ns_arr t) (ns_len t) = match ns_as_ref t with Ok x => Some x | _ => None end.
+Proof.
+  intros [arr len]. unfold tr_normalized_string_as_ref, ns_as_ref, ns_text. cbn [ns_arr ns_len].
+  destruct (Nat.ltb_spec (length arr) (N.to_nat len)) as [H|H].
+  - destruct (N.ltb_spec (N.of_nat (length arr)) len) as [_|H']; [reflexivity|lia].
+  - destruct (N.ltb_spec (N.of_nat (length arr)) len) as [H'|_]; [lia|].
+    destruct (N.ltb_spec len 0) as [H'|_]; [lia|].
+    cbv zeta. rewrite N.sub_0_r. change (N.to_nat 0) with 0%nat. cbn [skipn].
+    destruct (forallb _ _); reflexivity.
+Qed.
